@@ -114,6 +114,13 @@ int main(int argc, char *argv[]) {
 
     std::list<std::list<edge_descriptor>> cycles;
     double mcb_weight;
+#ifdef PARMCB_VERIF
+#if defined(PARMCB_HAVE_TBB) && TBB_VERSION_MAJOR > 2020
+    std::cerr << "PARMCB_VERIF active_parallelism="
+            << oneapi::tbb::global_control::active_value(oneapi::tbb::global_control::max_allowed_parallelism)
+            << std::endl;
+#endif
+#endif
     if (vm["signed"].as<bool>()) {
         if (vm["parallel"].as<bool>()) {
 #ifdef PARMCB_HAVE_TBB
